@@ -66,4 +66,7 @@ theorem create_owner (s s' : St) (c : Ctx) (args : Bytes) (body : Rfc.Body) (h :
 /-- non-vacuity: uid 1000 asking for uid 0 gets 1000 -/
 example : ownerUid { now := 0, uid := 1000, gid := 1000, aux := [] } { uid := some 0, gid := some 0 } = 1000 := by decide
 
+/-- regenerated from the source on every run: the connection loop builds the authentication context inside its request loop, from that call's credential (the model's per-call identity) -/
+theorem gen_conn_loop_identity_per_call : Gen.connLoopAuthPerCall = true := by decide
+
 end Props.C11
